@@ -5,11 +5,13 @@
  */
 #include "ipc_common.h"
 #include <sys/uio.h>
+#include <pthread.h>
+#include <time.h>
 
 const char *verif_property = "C02";
 const char *verif_class_names[] = { "refused_then_retried", "two_in_flight", "deferred_notification", "size_at_limit", "size_beyond_limit", "fc_toggled_midburst",
-	"shm", "socket", "event_readable_checked", "response_from_callback", "response_from_outside", "three_clients", "ring_full_refusal", "sendv", NULL };
-enum { K_RETRY, K_INFLIGHT, K_DEFER, K_ATLIMIT, K_BEYOND, K_FC, K_SHM, K_SOCK, K_READABLE, K_RESPCB, K_RESPOUT, K_THREE, K_FULL, K_SENDV };
+	"shm", "socket", "event_readable_checked", "response_from_callback", "response_from_outside", "three_clients", "ring_full_refusal", "sendv", "client_send_blocked_then_rescued", NULL };
+enum { K_RETRY, K_INFLIGHT, K_DEFER, K_ATLIMIT, K_BEYOND, K_FC, K_SHM, K_SOCK, K_READABLE, K_RESPCB, K_RESPOUT, K_THREE, K_FULL, K_SENDV, K_RESCUED };
 const char *verif_rule =
 	"case = transport, negotiated maximum size, 1-3 clients and an op list: client send/sendv/recv/event_recv (timeout 0), server step (dispatch one ready descriptor chosen by the case), "
 	"server response/event of generated length from inside the message callback or from outside, rate-limit changes (OFF, OFF_2, NORMAL, FAST, SLOW), fc_enable_max changes, shrinking the "
@@ -92,6 +94,32 @@ static int32_t s_accept(qb_ipcs_connection_t *c, uid_t u, gid_t g) { (void)c; (v
 static void s_created(qb_ipcs_connection_t *c) { for (int i = 0; i < 3; i++) if (!C[i].sv && C[i].idx == -2) { C[i].sv = c; C[i].idx = i; return; } }
 static int32_t s_closed(qb_ipcs_connection_t *c) { (void)c; return 0; }
 static void s_destroyed(qb_ipcs_connection_t *c) { int i = conn_of(c); if (i >= 0) C[i].sv = NULL; }
+/* ---- the one place where the client blocks: qb_ipcc_send spins while the client-to-server notification socket is full.
+   A helper thread plays "the server gets some CPU": only while the main thread has been stuck inside a send for 2 ms it runs server steps
+   (the main thread touches nothing meanwhile, so the harness state is never accessed concurrently). */
+static pthread_mutex_t rescue_mx = PTHREAD_MUTEX_INITIALIZER;
+static volatile int in_send, rescue_on, rescues, fc_state;
+static volatile double send_start_ms;
+static double now_ms(void) { struct timespec ts; clock_gettime(CLOCK_MONOTONIC, &ts); return ts.tv_sec * 1e3 + ts.tv_nsec / 1e6; }
+static void *rescue_main(void *)
+{
+	for (;;) {
+		struct timespec ts = { 0, 300000 }; nanosleep(&ts, NULL);
+		if (!in_send || now_ms() - send_start_ms < 2.0) continue;
+		pthread_mutex_lock(&rescue_mx);
+		if (in_send) {
+			/* a server that keeps flow control on never reads: after 20 ms it lifts it, as a real server eventually would */
+			if (fc_state && now_ms() - send_start_ms > 20.0) { qb_ipcs_request_rate_limit(S, QB_IPCS_RATE_NORMAL); fc_state = 0; }
+			server_step(0); rescues++;
+		}
+		pthread_mutex_unlock(&rescue_mx);
+	}
+	return NULL;
+}
+static void rescue_start(void) { if (rescue_on) return; pthread_t t; if (pthread_create(&t, NULL, rescue_main, NULL) == 0) { pthread_detach(t); rescue_on = 1; } }
+static void send_begin(void) { send_start_ms = now_ms(); __sync_synchronize(); in_send = 1; }
+static void send_end(void) { in_send = 0; __sync_synchronize(); pthread_mutex_lock(&rescue_mx); pthread_mutex_unlock(&rescue_mx); }
+
 static int32_t s_msg(qb_ipcs_connection_t *sc, void *data, size_t size)
 {
 	int i = conn_of(sc);
@@ -170,7 +198,7 @@ extern "C" int verif_case(const uint8_t *data, size_t size, struct verif_report 
 	MAXMSG = qb_ipcc_get_buffer_size(C[0].cl);
 	VLOG(r, "%s transport, %d client(s), negotiated max %zu\n", type == QB_IPC_SHM ? "shm" : "socket", NC, MAXMSG);
 	vop(r, 0xC02, type * 16 + NC, MAXMSG);
-	int fc_state = 0;
+	fc_state = 0;
 
 	while (!vr_eof(&V) && !r->fail) {
 		unsigned op = vr_u8(&V) % 32; conn &c = C[vr_u8(&V) % NC];
@@ -180,17 +208,30 @@ extern "C" int verif_case(const uint8_t *data, size_t size, struct verif_report 
 			struct qb_ipc_request_header *h = (struct qb_ipc_request_header *)sbuf;
 			fill_msg(sbuf, len, c.idx, c.nreq, 0, hs); h->id = 100; h->size = (int32_t)len;
 			ssize_t rc; bool v2 = op >= 8;
+			/* the model learns about the request before the call: if the client blocks, the server may consume it before the call returns */
+			uint32_t seq = c.nreq;
+			c.req.push_back(mmsg{ (uint32_t)len, seq });
+			int before = rescues;
+			send_begin();
 			if (v2 && len > hs + 4) { struct iovec iov[2] = { { sbuf, hs + 3 }, { sbuf + hs + 3, len - hs - 3 } }; rc = qb_ipcc_sendv(c.cl, iov, 2); VCLASS(r, K_SENDV); }
 			else rc = qb_ipcc_send(c.cl, sbuf, len);
+			send_end();
+			if (rescues != before) { VCLASS(r, K_RESCUED); VLOG(r, "  (the client was blocked on the full notification socket until the server ran %d step(s))\n", rescues - before); }
 			vop(r, 1, c.idx, len);
-			VLOG(r, "client %d send len %zu seq %u -> %zd\n", c.idx, len, c.nreq, rc);
+			VLOG(r, "client %d send len %zu seq %u -> %zd\n", c.idx, len, seq, rc);
+			if (r->fail) break;
 			if (rc == (ssize_t)len) {
 				if (len > MAXMSG) { VFAIL(r, "oversize-accepted", "client send of %zu bytes accepted although the negotiated maximum is %zu", len, MAXMSG); break; }
-				c.req.push_back(mmsg{ (uint32_t)len, c.nreq }); c.nreq++;
+				c.nreq++;
 				if (c.req.size() >= 2) nt_inflight = true;
 				if (c.refused_pending) { nt_retry = true; VCLASS(r, K_RETRY); c.refused_pending = false; }
 			} else if (rc >= 0) { VFAIL(r, "send-partial", "client send of %zu bytes returned %zd", len, rc); break; }
-			else { if (len <= MAXMSG) c.refused_pending = true; if (rc == -EAGAIN && !fc_state) VCLASS(r, K_FULL); }
+			else {
+				/* refused: it must have had no effect, i.e. the tentative entry is still the newest one of the model */
+				if (!c.req.empty() && c.req.back().seq == seq && c.req.back().len == (uint32_t)len) c.req.pop_back();
+				else { VFAIL(r, "refused-send-delivered", "client %d: send of request seq %u returned %zd but the server has already been handed that request", c.idx, seq, rc); break; }
+				if (len <= MAXMSG) c.refused_pending = true; if (rc == -EAGAIN && !fc_state) VCLASS(r, K_FULL);
+			}
 		}
 		else if (op <= 15) { vop(r, 2, 0, 0); int did = server_step(vr_u8(&V)); VLOG(r, "server step -> %d\n", did); }
 		else if (op <= 18) client_recv(c, false);
@@ -215,6 +256,13 @@ extern "C" int verif_case(const uint8_t *data, size_t size, struct verif_report 
 			setsockopt(sc->setup.u.us.sock, SOL_SOCKET, SO_SNDBUF, &v, sizeof v);
 			setsockopt(c.cl->setup.u.us.sock, SOL_SOCKET, SO_RCVBUF, &v, sizeof v);
 			vop(r, 5, c.idx, 0); VLOG(r, "client %d: notification socket buffers shrunk\n", c.idx);
+		}
+		else if (op == 30 && c.sv && type == QB_IPC_SHM) {	/* shrink the client-to-server notification socket: a handful of unprocessed requests fills it and the next send blocks */
+			int v = 1; struct qb_ipcs_connection *sc = (struct qb_ipcs_connection *)c.sv;
+			setsockopt(c.cl->setup.u.us.sock, SOL_SOCKET, SO_SNDBUF, &v, sizeof v);
+			setsockopt(sc->setup.u.us.sock, SOL_SOCKET, SO_RCVBUF, &v, sizeof v);
+			rescue_start();
+			vop(r, 6, c.idx, 0); VLOG(r, "client %d: client-to-server notification socket shrunk\n", c.idx);
 		}
 		else if (op <= 29 && c.sv) {	/* a burst of events */
 			int n = 2 + vr_u8(&V) % 30;
